@@ -52,6 +52,9 @@ func c16Check(c *Case) []Violation {
 	if t.err != nil {
 		return []Violation{viol(c, "C16/rejected", "preference reversal failed: %v", t.err)}
 	}
+	if v := alteredReport(c, "C16", "preferenceReversal", t, bs); v != nil {
+		return v
+	}
 	reps := asL(t.props["reversedPreferenceCriteria"])
 	if len(reps) != k {
 		return []Violation{viol(c, "C16/count", "%d criteria reversed, expected k=%d of %d", len(reps), k, n)}
@@ -248,6 +251,9 @@ func rootImportance(req M) map[string]float64 {
 func c16Run(s *Shard) {
 	cur = s
 	prefixes := statePrefixes(!quick(s))
+	// inserted right after the single-bias prefixes, so that every data variant of the roots runs them too
+	ownP := ownPrefixes(bias("preferenceReversal", M{"ratio": 1.0}))
+	prefixes = append(append(append([][]M{}, prefixes[:13]...), ownP...), prefixes[13:]...)
 	ords := []string{"", "weakest", "strongest", "random", "weakestByProbability", "strongestByProbability"}
 	type rm struct {
 		ratio    float64
@@ -257,7 +263,7 @@ func c16Run(s *Shard) {
 	sampled := false
 	for _, method := range allMethods {
 		for _, subset := range []bool{false, true} {
-			for variant := 0; variant < 6; variant++ { // observed range, declared range, c1 strictly negative, c3 single-valued, undeclared extra values, c3 at 1e-9 scale
+			for variant := 0; variant < 7; variant++ { // observed range, declared range, c1 strictly negative, c3 single-valued, undeclared extra values, c3 at 1e-9 scale, never-considered alternatives beyond both ends
 				root := rootRequest(method, subset, variant == 1)
 				if variant == 2 {
 					root = negativeVariant(root)
@@ -270,6 +276,9 @@ func c16Run(s *Shard) {
 				if variant == 5 {
 					root = tinyVariant(root)
 				}
+				if variant == 6 {
+					root = wideVariant(root)
+				}
 				if variant == 4 {
 					if method == "weightedSum" || method == "owa" || method == "choquetIntegral" {
 						continue // these methods reject values for undeclared criteria
@@ -279,7 +288,7 @@ func c16Run(s *Shard) {
 					}
 				}
 				for pi, pre := range prefixes {
-					if variant >= 2 && pi > 12 {
+					if variant >= 2 && pi > 12+len(ownP) {
 						continue
 					}
 					if !s.Take() {
